@@ -289,6 +289,17 @@ def balanced_stream(rng, tier):
     return st
 
 
+def balanced_split_stream(rng, tier):
+    lists = balanced_ops(rng, tier)
+    ops = ["tokencs " + ",".join(l) for l in lists]
+    st = Stream("balanced-call-sequences-split", "hcore", ops, model_ops=["tokenc " + o[8:] for o in ops], spec_ops=["balanced " + o[8:] for o in ops],
+                judge=judge_balanced,
+                rule="tokencs <calls>: the same call sequences issued as SEVERAL calls on one Encoder (fragments of 2, 1, 3, … calls through Encoder::tokens, "
+                     "single calls through Encoder::encode): a balanced sequence denotes the same items however it is split over calls (same oracle as above)")
+    st.shrinkable = False
+    return st
+
+
 def judge(op, impl, model, spec):
     w = op.split(" ")
     if impl == spec:
@@ -408,11 +419,13 @@ def streams(rng, tier):
                  rule="tenc <type> <value> for every registered built-in type (C01 corpus): implementation bytes == model bytes (= encPref of the data-model value by builtin_pref)")
     stb.shrinkable = False
     # determinism: the same ops a second time must give the same bytes
-    return [st, sti, stt, stb, balanced_stream(rng, tier), Stream("encoder-methods-again", "hcore", ops[::7], rule="every 7th op of the first stream, run again in a fresh process")]
+    return [st, sti, stt, stb, balanced_stream(rng, tier), balanced_split_stream(rng, tier), Stream("encoder-methods-again", "hcore", ops[::7], rule="every 7th op of the first stream, run again in a fresh process")]
 
 
 def replay_streams(rp):
     op = rp.get("original_op") or rp["op"]
     if op.startswith("tokenc "):
         return [Stream("replay", "hcore", [op], spec_ops=["balanced " + op[7:]], judge=judge_balanced)]
+    if op.startswith("tokencs "):
+        return [Stream("replay", "hcore", [op], model_ops=["tokenc " + op[8:]], spec_ops=["balanced " + op[8:]], judge=judge_balanced)]
     return [Stream("replay", rp.get("binary", "hcore"), [op], spec_ops=["encspec " + op[4:]], judge=judge)]
